@@ -188,6 +188,11 @@ func (env *SpecEnv) eval(x *SExpr) Val {
 					al = env.cur.Alloc
 				}
 				guards = append(guards, app("<=", "0", nm), app("<", nm, al))
+				if sh[0].Tag != "" {
+					env.st.emitAllocSummary()
+					// typed quantification: only objects of the named dynamic type
+					guards = append(guards, or(eq(nm, "0"), eq(app("rtype", nm), strLit(sh[0].Tag))))
+				}
 			}
 		}
 		body := ne.evalBool(x.Args[0])
@@ -252,6 +257,18 @@ func (env *SpecEnv) evalIdent(name string) Val {
 		}
 		if v, ok := g[name]; ok {
 			return v
+		}
+		if tt, ok := env.st.eng.ghostDecls[name]; ok {
+			t := env.resolveTypeIn(tt, env.st.eng.ghostPkg[name])
+			if env.cur != nil {
+				// untouched before the snapshot: the entry constant
+				v := Val{T: t}
+				for _, l := range shapeOf(t) {
+					v.Terms = append(v.Terms, env.st.ghostConst(name, l))
+				}
+				return v
+			}
+			return env.st.ghostGet(name, t)
 		}
 		specFail("unknown ghost variable %s", name)
 	}
@@ -339,16 +356,28 @@ func (env *SpecEnv) snap() *Snapshot {
 }
 
 func (env *SpecEnv) evalSel(x *SExpr) Val {
-	// package-qualified identifier?
+	// package-qualified identifier? (a local variable with the same name as a package shadows it only if it has such a field)
 	if x.Args[0].Op == "ident" {
 		if _, isVar := env.vars[x.Args[0].Name]; !isVar {
-			if env.fn == nil || env.st.eng.localByName(env.fn, x.Args[0].Name) == nil {
-				if p := env.st.eng.pkgByName(x.Args[0].Name, env.pkg); p != nil && env.pkg.Scope().Lookup(x.Args[0].Name) == nil {
-					obj := p.Scope().Lookup(x.Name)
-					if obj == nil {
-						specFail("unknown %s.%s", x.Args[0].Name, x.Name)
+			if p := env.st.eng.pkgByName(x.Args[0].Name, env.pkg); p != nil && env.pkg.Scope().Lookup(x.Args[0].Name) == nil {
+				if obj := p.Scope().Lookup(x.Name); obj != nil {
+					shadow := false
+					if env.fn != nil {
+						if a := env.st.eng.localByName(env.fn, x.Args[0].Name); a != nil {
+							t := derefType(a.Type())
+							if pt := derefType(t); pt != nil {
+								t = pt
+							}
+							if st, ok := t.Underlying().(*types.Struct); ok {
+								if i, _ := findField(st, x.Name); i >= 0 {
+									shadow = true
+								}
+							}
+						}
 					}
-					return env.evalObj(obj)
+					if !shadow {
+						return env.evalObj(obj)
+					}
 				}
 			}
 		}
@@ -714,6 +743,9 @@ func (env *SpecEnv) evalCall(x *SExpr) Val {
 			i, j, i, i, j, j, sv.Terms[0], sv.Terms[2], i, sv.Terms[2], j))
 	case "mapref":
 		return mkInt(t0(0))
+	case "helptext":
+		env.st.eng.assumptionsUsed["helptext(node) names the text helpOutput(node) yields in the current definition state (assumed unchanged between the compared calls)"] = true
+		return mkStr(app("help_text", t0(0)))
 	case "charat":
 		return mkStr(app("str.at", t0(0), t0(1)))
 	case "explode":
@@ -760,6 +792,10 @@ func (env *SpecEnv) seqEq(a Val, ai string, b Val, bi string, n string, full boo
 		hi = n
 	}
 	q := fmt.Sprintf("(forall ((%s Int)) (! (=> (and (<= %s %s) (< %s %s)) %s) :pattern ((select %s %s))))", k, ai, k, k, hi, and(cs...), a.Terms[2], k)
+	if strings.Contains(a.Terms[2], "(ite ") {
+		// solvers reject ite inside patterns
+		q = fmt.Sprintf("(forall ((%s Int)) (=> (and (<= %s %s) (< %s %s)) %s))", k, ai, k, k, hi, and(cs...))
+	}
 	if full {
 		return and(eq(a.Terms[0], b.Terms[0]), q)
 	}
